@@ -43,7 +43,7 @@ impl BigNumber {
             // only odd candidates
             buf[size_bytes - 1] |= 1;
             // ensure within range
-            buf[range_top_offs] &= u8::MAX >> (8 - range_top_bits);
+            buf[range_top_offs] &= ((1u16 << range_top_bits) - 1) as u8;
             // ensure within size
             buf[0] |= 1 << size_top_bits;
 
